@@ -276,12 +276,41 @@ def r4(ctx):
                         asl = backslice(b, [a])
                         if ({f for f in asl.field_names()} & {f for f in la.field_names()}) or ({l for l in asl.locals if b.local_name(l)} & {l for l in la.locals if b.local_name(l)}):
                             clamped = True
-            # (3) saturating/checked arithmetic instead
+            # (3) right operand selected by a comparison with the left one: `if r > l { l } else { r }`
+            if not (guarded or clamped):
+                from ..analysis import base_named_local
+                rl = base_named_local(b, c.args[1])
+                rdefs = [d for d in b.defs().get(rl, []) if d[2] == 'assign'] if rl is not None else []
+
+                def roots(sl_):
+                    return {('f', f) for f in sl_.field_names()} | {('u', i) for i, _ in sl_.upvars} | {('p', p) for p in sl_.params if not (b.kind == 'closure' and p == 1)}
+                lroots = roots(la)
+                for cmp in comparisons(b):
+                    if cmp.op in ('==', '!='):
+                        continue
+                    br = branch_of(b, cmp)
+                    if br is None or len(rdefs) < 2:
+                        continue
+                    x, y = roots(backslice(b, [cmp.a])), roots(backslice(b, [cmp.b]))
+                    if not ((x & lroots) or (y & lroots)):
+                        continue
+                    t_defs = [d for d in rdefs if b.dominates(br[1], d[0])]
+                    f_defs = [d for d in rdefs if b.dominates(br[2], d[0])]
+                    if t_defs and f_defs:
+                        from_left = [d for d in t_defs + f_defs if roots(backslice(b, rvalue_operands_(d[3]))) <= lroots | {('f', 'len')} and roots(backslice(b, rvalue_operands_(d[3]))) & lroots]
+                        if from_left:
+                            clamped = True
+            # (4) saturating/checked arithmetic instead
             ctx.check(guarded or clamped, rule, key, c.where(),
                       'subtraction %s' % ('guarded by a dominating comparison of its operands' if guarded else 'with the right operand clamped by min(_, left)'),
                       'unguarded %s: left {%s}, right {%s} - overflow aborts the run (debug) or wraps and drops files (release) when the right operand exceeds the left (e.g. --max-suffix-size larger than the file)'
                       % (c.path.split(' as ')[0].lstrip('<') + ' - ', la.describe(b), lb.describe(b)))
     ctx.floor(rule, 'FileLen/FilePos subtraction sites', n, 2)
+
+
+def rvalue_operands_(stmt):
+    from ..facts import rvalue_operands
+    return rvalue_operands(stmt['rv'])
 
 
 def r5(ctx):
